@@ -6,6 +6,7 @@
 #include <dlfcn.h>
 #include <errno.h>
 #include <stdint.h>
+#include <stdio.h>
 #include <stdlib.h>
 #include <string.h>
 #include <sys/sendfile.h>
@@ -22,6 +23,18 @@ static void init(void) {
 }
 static uint64_t rnd(void) { st ^= st << 13; st ^= st >> 7; st ^= st << 17; return st; }
 static int is_sock(int fd) { struct stat sb; return 0 == fstat(fd, &sb) && S_ISSOCK(sb.st_mode); }
+/* regular files whose path contains FAULTIO_FILE_SUBSTR: short writes and ENOSPC at FAULTIO_FILE_RATE percent */
+static int file_fault(int fd) {
+    static const char *sub; static int frate = -1;
+    if (frate < 0) { sub = getenv("FAULTIO_FILE_SUBSTR"); const char *r = getenv("FAULTIO_FILE_RATE"); frate = (sub && r) ? atoi(r) : 0; if (rate < 0) init(); }
+    if (!frate) return 0;
+    struct stat sb; if (0 != fstat(fd, &sb) || !S_ISREG(sb.st_mode)) return 0;
+    char lnk[64], path[512]; snprintf(lnk, sizeof(lnk), "/proc/self/fd/%d", fd);
+    ssize_t n = readlink(lnk, path, sizeof(path) - 1); if (n <= 0) return 0; path[n] = 0;
+    if (!strstr(path, sub)) return 0;
+    if ((int)(rnd() % 100) >= frate) return 0;
+    return (rnd() % 3) ? 3 : 4;   /* 3: short, 4: ENOSPC */
+}
 /* 0: no fault, 1: EAGAIN, 2: EINTR, 3: short */
 static int pick(int fd) {
     if (rate < 0) init();
@@ -35,6 +48,10 @@ static size_t shorten(size_t n) { return n <= 1 ? n : 1 + (size_t)(rnd() % (n - 
 ssize_t write(int fd, const void *buf, size_t n) {
     static ssize_t (*real)(int, const void *, size_t);
     if (!real) real = dlsym(RTLD_NEXT, "write");
+    switch (file_fault(fd)) {
+      case 3: n = shorten(n); return real(fd, buf, n);
+      case 4: errno = ENOSPC; return -1;
+    }
     switch (pick(fd)) {
       case 1: errno = EAGAIN; return -1;
       case 2: errno = EINTR; return -1;
